@@ -75,7 +75,7 @@ rule(P, 'implicit_multiply', '*', VAL, ['C12'])
 rule(P, 'get_enclosed_elements_with_impl_mult_*', '*', VAL, ['C04', 'C12', 'C13', 'C20'])
 rule(P, 'new', '*', VAL, ['C14', 'C03'])
 rule(P, 'get_next_token', '*', VAL, ['C03'])
-rule(P, 'parse_number', 'Ans', VAL, ['C14', 'C20'])
+rule(P, 'parse_number', 'Ans', VAL, ['C14', 'C20', 'C12'])
 rule(P, 'parse_number', 'ExplicitFunction', VAL, ['C10', 'C12'])
 rule(P, 'parse_number', 'ExplicitFunction/*', VAL, ['C10'])
 for f in ('Min', 'Max', 'Avg', 'Med', 'Gcd', 'Lcm'):
@@ -95,10 +95,34 @@ rule(P, 'parse_number', '-', VAL, ['C03'])
 for t in ('Ampersand', 'Bar', 'LeftShift', 'RightShift', 'Add', 'Subtract', 'Multiply', 'Divide', 'Caret', 'Modulo'):
     rule(P, 'convert_token_to_node', t, VAL, ['C04'])
 rule(P, 'convert_token_to_node', 'ExclamationMark', VAL, ['C04', 'C12', 'C10'])
-rule(P, 'convert_token_to_node', 'Superscript', VAL, ['C13', 'C04'])
-rule(P, 'convert_token_to_node', 'DegToRad', VAL, ['C10', 'C04'])
-rule(P, 'convert_token_to_node', 'RadToDeg', VAL, ['C10', 'C04'])
+rule(P, 'convert_token_to_node', 'Superscript', VAL, ['C13', 'C04', 'C12'])
+rule(P, 'convert_token_to_node', 'DegToRad', VAL, ['C10', 'C04', 'C12'])
+rule(P, 'convert_token_to_node', 'RadToDeg', VAL, ['C10', 'C04', 'C12'])
 rule(P, 'convert_token_to_node', 'default', VAL, ['C03'])
 rule(P, 'convert_token_to_node', '-', VAL, ['C03'])
 rule(P, '*', '*', ['overflow', 'divzero', 'shift', 'index'], ['C01'])
 rule(P, '*', '*', ['decreases'], ['C02'])
+
+
+# ---- eval_complex::ast (unit complex-ast): mapping against the num_complex header
+rule('complex-ast', 'eval', '*', ['post', 'assert', 'precond'], ['C08', 'C10', 'C20'])
+rule('complex-ast', 'eval', 'Number', ['post'], ['C14'])
+rule('complex-ast', '*', '*', PANIC_KINDS, ['C01'])
+rule('complex-ast', '*', '*', ['decreases'], ['C02'])
+
+
+# ---- eval_decimal::ast (unit decimal-ast): mapping + error contract against the rust_decimal header
+DEC_ARITH = ['Add', 'Subtract', 'Multiply', 'Divide', 'Modulo', 'Negative']
+DEC_FUNCS = ['Abs', 'Floor', 'Ceil', 'Round', 'Truncate', 'Sign', 'Ln', 'Lb', 'Exp', 'Exp2', 'Sqrt', 'Pow', 'Root', 'Log']
+for a in DEC_ARITH:
+    rule('decimal-ast', 'eval', a, ['post', 'assert'], ['C07', 'C20'])
+for a in DEC_FUNCS:
+    rule('decimal-ast', 'eval', a, ['post', 'assert'], ['C10', 'C20'])
+rule('decimal-ast', 'eval', 'Number', ['post'], ['C07', 'C14', 'C20'])
+rule('decimal-ast', 'checked', '*', ['post'], ['C07'])
+rule('decimal-ast', '*', '*', PANIC_KINDS, ['C01'])
+for a in DEC_ARITH:
+    rule('decimal-ast', 'eval', a, PANIC_KINDS, ['C07'])        # "by zero / out of range yields Err" - not a panic
+for a in ('Min', 'Max', 'Avg', 'Med'):
+    rule('decimal-ast', 'eval', a, PANIC_KINDS, ['C11'])        # an argument that fails makes the aggregate return Err
+rule('decimal-ast', '*', '*', ['decreases'], ['C02'])
